@@ -99,14 +99,38 @@ pub fn layer_b_cases(max_cs: u32) -> Vec<CaseB> {
     v
 }
 
+/// The same property at the command line: `kestrel encrypt` then `kestrel decrypt`, data through files or real pipes.
+#[derive(Clone, Debug, Serialize, Deserialize)]
+pub struct CliCase { pub plain: Plain, pub enc_pipe: Option<Vec<usize>>, pub dec_pipe: Option<Vec<usize>>, pub enc_stdout: bool, pub dec_stdout: bool }
+pub fn check_cli(c: &CliCase) -> CheckResult {
+    use crate::cli::{self, In, Sandbox};
+    let id = super::c13::ids(); let sb = Sandbox::new(); let p = c.plain.bytes();
+    sb.write("keys.txt", cli::keyring_text(&[(&id.alice, true), (&id.bob, true)]).as_bytes()); sb.write("p.bin", &p);
+    let mut a = vec!["encrypt"]; if c.enc_pipe.is_none() { a.push("p.bin"); } a.extend(["-t", "bob", "-f", "alice", "-k", "keys.txt", "--env-pass"]); if !c.enc_stdout { a.extend(["-o", "c.ktl"]); }
+    let mut cmd = sb.cmd(&a).env("KESTREL_PASSWORD", &id.alice.password); if let Some(sz) = &c.enc_pipe { cmd = cmd.stdin(In::Pipe(p.clone(), sz.clone())); }
+    let r = cmd.run(); ensure!(r.code == Some(0), "kestrel encrypt failed: {}", r.describe());
+    let ct = if c.enc_stdout { r.stdout.clone() } else { sb.read("c.ktl").ok_or("no ciphertext file")? }; sb.write("c2.ktl", &ct);
+    let mut a = vec!["decrypt"]; if c.dec_pipe.is_none() { a.push("c2.ktl"); } a.extend(["-t", "bob", "-k", "keys.txt", "--env-pass"]); if !c.dec_stdout { a.extend(["-o", "out.bin"]); }
+    let mut cmd = sb.cmd(&a).env("KESTREL_PASSWORD", &id.bob.password); if let Some(sz) = &c.dec_pipe { cmd = cmd.stdin(In::Pipe(ct.clone(), sz.clone())); }
+    let r = cmd.run(); ensure!(r.code == Some(0), "kestrel decrypt of a file the tool just wrote failed: {} ({} plaintext bytes, ciphertext {} bytes)", r.describe(), p.len(), ct.len());
+    let out = if c.dec_stdout { r.stdout.clone() } else { sb.read("out.bin").ok_or("no plaintext file")? };
+    ensure!(out == p, "command-line round trip changed the plaintext ({} bytes in, {} out)", p.len(), out.len());
+    ensure!(r.stderr_s().contains("Success. File from: alice"), "decrypt did not report the sender: {}", r.stderr_s());
+    let nchunks = if ct.len() > 132 { kspec::parse_records(&ct[132..]).map(|r| r.len()).unwrap_or(0) } else { 0 };
+    ok(nchunks >= 2 || p.is_empty() || c.enc_pipe.is_some() || c.dec_pipe.is_some(), format!("cli/{}{}/{}chunks", if c.enc_pipe.is_some() { "pipe-in" } else { "file-in" }, if c.dec_pipe.is_some() { "+pipe-dec" } else { "" }, nchunks.min(4)))
+}
+
 pub fn run(ctx: &Ctx) {
-    set_rule("C01", "layer A: (plaintext length+seed, sender, recipient, randomness mode, 4 I/O schedules) through key_encrypt -> key_decrypt with the real 64 KiB chunk size; layer B: every composition of every length 0..=3cs+1 into reads <= cs for tiny chunk sizes through the hooked chunk loops x 3 sink schedules x 2 AADs x 3 decrypt schedules. Non-trivial = >= 2 chunks, or a short read before the last, or length in {0, k*65536-1, k*65536, k*65536+1}; distinct by hash of the generated case (layer A) / enumeration index (layer B)");
+    set_rule("C01", "layer A: (plaintext length+seed, sender, recipient, randomness mode, 4 I/O schedules) through key_encrypt -> key_decrypt with the real 64 KiB chunk size; layer B: every composition of every length 0..=3cs+1 into reads <= cs for tiny chunk sizes through the hooked chunk loops x 3 sink schedules x 2 AADs x 3 decrypt schedules. CLI layer: `kestrel encrypt` then `kestrel decrypt` of the binary built from the working tree, data through files, stdout, or real pipes written in generated pieces. Non-trivial = >= 2 chunks, or a short read before the last, or length in {0, k*65536-1, k*65536, k*65536+1}; distinct by hash of the generated case (layer A) / enumeration index (layer B)");
     ctx.assume("readers are conforming (once they return 0 they keep returning 0); randomness drawn by kestrel itself is not pinned and no oracle depends on its value");
     let max = if ctx.quick() { 300_000 } else { 4 << 20 };
-    ctx.pbt("roundtrip_api", ctx.n(6_000, 200_000), || strat_a(max), check_a);
+    ctx.pbt("roundtrip_api", ctx.n(40_000, 400_000), || strat_a(max), check_a);
     let cases = layer_b_cases(if ctx.quick() { 4 } else { 6 });
     let total = cases.len();
     ctx.sse_vec("roundtrip_chunks_sse", &format!("all compositions of lengths 0..=3cs+1 into reads<=cs, cs=1..={}, x3 sink schedules x2 AADs", if ctx.quick() { 4 } else { 6 }), cases, check_b);
     ctx.put("sse_space", serde_json::json!(total));
+    ctx.shrink_iters.store(20, std::sync::atomic::Ordering::Relaxed);
+    let sizes = || proptest::option::of(proptest::collection::vec(prop_oneof![1usize..50, 1usize..5000, Just(65536usize), Just(65537usize)], 0..8));
+    ctx.pbt("cli_files_and_pipes", ctx.n(64, 1_500), || (prop_oneof![1 => Just(Plain { len: 0, seed: 0 }), 4 => gen::small_plain(2000), 2 => gen::plain_strategy(300_000)], sizes(), sizes(), any::<bool>(), any::<bool>()).prop_map(|(plain, enc_pipe, dec_pipe, enc_stdout, dec_stdout)| CliCase { plain, enc_pipe, dec_pipe, enc_stdout, dec_stdout }), check_cli);
     ctx.put("spec_agreement", serde_json::json!({"agree": SPEC_AGREE.load(Ordering::Relaxed), "disagree": SPEC_DISAGREE.load(Ordering::Relaxed), "note": "informational only; byte conformance is C06's verdict"}));
 }
